@@ -135,6 +135,11 @@ type replayBuilder struct {
 	notes   []string
 	nobj    int
 	bad     string // reason the inputs cannot be constructed
+	curTerm string // SMT term of the value being built (when known)
+	softs   map[string]bool
+	retry   bool
+	noSoft  bool
+	needSet bool
 }
 
 func (rb *replayBuilder) qual(p *types.Package) string {
@@ -219,15 +224,38 @@ func (rb *replayBuilder) value(t types.Type, x *sexp, depth int) string {
 		if len(x.list) != u.NumFields()+1 {
 			return zero()
 		}
-		// build through a closure so that unexported fields of other packages can be skipped
+		foreign := false
+		for i := 0; i < u.NumFields(); i++ {
+			if f := u.Field(i); !f.Exported() && f.Pkg() != rb.pkg {
+				foreign = true
+			}
+		}
+		if foreign {
+			// fields of other packages are set through reflection on a temporary object
+			rb.nobj++
+			name := fmt.Sprintf("tmp%d", rb.nobj)
+			rb.decls = append(rb.decls, fmt.Sprintf("%s := new(%s)", name, rb.typeStr(t)))
+			for i := 0; i < u.NumFields(); i++ {
+				f := u.Field(i)
+				saved := rb.curTerm
+				if saved != "" {
+					rb.curTerm = rb.vc.sorts().selField(t, i, saved)
+				}
+				val := rb.value(f.Type(), x.list[i+1], depth)
+				rb.curTerm = saved
+				rb.setField(name, f, val)
+			}
+			return "*" + name
+		}
 		var parts []string
 		for i := 0; i < u.NumFields(); i++ {
 			f := u.Field(i)
-			if !f.Exported() && f.Pkg() != rb.pkg {
-				rb.note("unexported field " + f.Name() + " of " + rb.typeStr(t) + " left at its zero value")
-				continue
+			saved := rb.curTerm
+			if saved != "" {
+				rb.curTerm = rb.vc.sorts().selField(t, i, saved)
 			}
 			parts = append(parts, f.Name()+": "+rb.value(f.Type(), x.list[i+1], depth))
+			rb.curTerm = saved
 		}
 		return rb.typeStr(t) + "{" + strings.Join(parts, ", ") + "}"
 	case *types.Pointer:
@@ -247,10 +275,16 @@ func (rb *replayBuilder) value(t types.Type, x *sexp, depth int) string {
 		if arr == nil || ln == nil || off == nil || arr.Sign() == 0 {
 			return "(" + rb.typeStr(t) + ")(nil)"
 		}
+		if ln.Cmp(big.NewInt(64)) > 0 && rb.curTerm != "" && !rb.noSoft {
+			// ask for a model with a short slice here
+			rb.softs[fmt.Sprintf("(bvule (g_slen %s) (_ bv8 64))", rb.curTerm)] = true
+			rb.retry = true
+		}
 		if ln.Cmp(big.NewInt(1<<16)) > 0 {
 			rb.bad = "model needs a slice of length " + ln.String()
 			return zero()
 		}
+		rb.curTerm = ""
 		n := int(ln.Int64())
 		var elems []string
 		if depth > 4 {
@@ -267,7 +301,9 @@ func (rb *replayBuilder) value(t types.Type, x *sexp, depth int) string {
 				continue
 			}
 			allZero = false
+			rb.curTerm = term
 			elems = append(elems, rb.value(u.Elem(), parseSexp(ev), depth+1))
+			rb.curTerm = ""
 		}
 		_ = allZero
 		capExtra := ""
@@ -357,6 +393,42 @@ func (rb *replayBuilder) arrayValue(t types.Type, u *types.Array, x *sexp, depth
 	return rb.typeStr(t) + "{" + strings.Join(parts, ", ") + "}"
 }
 
+// setField assigns obj.f = val; fields of other packages that are not exported
+// are written through reflect/unsafe.
+func (rb *replayBuilder) setField(obj string, f *types.Var, val string) {
+	if f.Exported() || f.Pkg() == rb.pkg {
+		rb.inits = append(rb.inits, fmt.Sprintf("%s.%s = %s", obj, f.Name(), val))
+		return
+	}
+	if !nameable(f.Type(), rb.pkg) {
+		rb.note("unexported field " + f.Name() + " of unexported type left at its zero value")
+		return
+	}
+	rb.needSet = true
+	rb.inits = append(rb.inits, fmt.Sprintf("verifSet(%s, %q, %s)", obj, f.Name(), val))
+}
+
+func nameable(t types.Type, pkg *types.Package) bool {
+	switch u := t.(type) {
+	case *types.Named:
+		if u.Obj().Pkg() != nil && u.Obj().Pkg() != pkg && !u.Obj().Exported() {
+			return false
+		}
+		return true
+	case *types.Pointer:
+		return nameable(u.Elem(), pkg)
+	case *types.Slice:
+		return nameable(u.Elem(), pkg)
+	case *types.Array:
+		return nameable(u.Elem(), pkg)
+	case *types.Map:
+		return nameable(u.Key(), pkg) && nameable(u.Elem(), pkg)
+	case *types.Struct:
+		return false
+	}
+	return true
+}
+
 func (rb *replayBuilder) note(s string) {
 	for _, n := range rb.notes {
 		if n == s {
@@ -387,24 +459,24 @@ func (rb *replayBuilder) object(et types.Type, ref *big.Int, depth int) string {
 			if !ok {
 				continue
 			}
-			if !f.Exported() && f.Pkg() != rb.pkg {
-				rb.note("unexported field " + f.Name() + " of " + rb.typeStr(et) + " left at its zero value")
-				continue
-			}
 			if f.Name() == "_" {
 				continue
 			}
 			if _, isSig := f.Type().Underlying().(*types.Signature); isSig {
 				continue
 			}
+			rb.curTerm = term
 			val := rb.value(f.Type(), parseSexp(ev), depth+1)
-			rb.inits = append(rb.inits, fmt.Sprintf("%s.%s = %s", name, f.Name(), val))
+			rb.curTerm = ""
+			rb.setField(name, f, val)
 		}
 		return name
 	}
 	term := fmt.Sprintf("(select %s %s)", rb.initHeap(rb.vc.boxKeyFor(et)), refConst(ref))
 	if ev, ok := rb.need(term); ok {
+		rb.curTerm = term
 		rb.inits = append(rb.inits, fmt.Sprintf("*%s = %s", name, rb.value(et, parseSexp(ev), depth+1)))
+		rb.curTerm = ""
 	}
 	return name
 }
@@ -423,7 +495,7 @@ func (vc *VC) observationTerms() []string {
 
 // queryModel asks the solver for the values of terms in a model of the
 // obligation's negation that agrees with the values already fixed.
-func queryModel(ob *Obligation, fixed map[string]string, terms []string, file string, timeoutS int) (map[string]string, bool) {
+func queryModel(ob *Obligation, fixed map[string]string, softs map[string]bool, terms []string, file string, timeoutS int) (map[string]string, bool) {
 	var b strings.Builder
 	b.WriteString("(set-option :produce-models true)\n")
 	script := ob.vc.script(ob, false)
@@ -436,6 +508,14 @@ func queryModel(ob *Obligation, fixed map[string]string, terms []string, file st
 	sort.Strings(fk)
 	for _, k := range fk {
 		b.WriteString(fmt.Sprintf("(assert (= %s %s))\n", k, fixed[k]))
+	}
+	var sk []string
+	for k := range softs {
+		sk = append(sk, k)
+	}
+	sort.Strings(sk)
+	for _, k := range sk {
+		b.WriteString("(assert " + k + ")\n")
 	}
 	b.WriteString("(check-sat)\n")
 	for _, t := range terms {
@@ -472,20 +552,42 @@ func replayObligation(eng *Engine, o runOpts, ob *Obligation, path, work string)
 		writeReplayFile(o, ob, path, "no-package", "")
 		return false
 	}
-	rb := &replayBuilder{eng: eng, vc: vc, pkg: sp.Pkg, vals: map[string]string{}, pending: map[string]bool{}, objs: map[string]string{}, imports: map[string]string{}}
+	rb := &replayBuilder{eng: eng, vc: vc, pkg: sp.Pkg, vals: map[string]string{}, pending: map[string]bool{}, objs: map[string]string{}, imports: map[string]string{}, softs: map[string]bool{}}
 	for _, in := range vc.inputs {
 		rb.pending[in.Term] = true
 	}
 	mfile := filepath.Join(work, sanitize(ob.Name)+".replay.smt2")
 	var argExprs []string
-	for round := 0; round < 6; round++ {
+	for round := 0; round < 40; round++ {
+		if rb.retry {
+			// new preferences: forget the model read so far
+			rb.retry = false
+			rb.vals = map[string]string{}
+			rb.bad = ""
+			for _, in := range vc.inputs {
+				rb.pending[in.Term] = true
+			}
+		}
 		var terms []string
 		for t := range rb.pending {
 			terms = append(terms, t)
 		}
 		sort.Strings(terms)
 		if len(terms) > 0 {
-			m, ok := queryModel(ob, rb.vals, terms, mfile, 20)
+			fixed := map[string]string{}
+			for k, v := range rb.vals {
+				fixed[k] = v
+			}
+			m, ok := queryModel(ob, fixed, rb.softs, terms, mfile, 20)
+			if !ok && len(rb.softs) > 0 {
+				rb.softs = map[string]bool{}
+				rb.noSoft = true
+				rb.vals = map[string]string{}
+				for _, in := range vc.inputs {
+					rb.pending[in.Term] = true
+				}
+				continue
+			}
 			if !ok {
 				writeReplayFile(o, ob, path, "model-query-failed", "")
 				return false
@@ -496,12 +598,16 @@ func replayObligation(eng *Engine, o runOpts, ob *Obligation, path, work string)
 		}
 		rb.pending = map[string]bool{}
 		rb.objs = map[string]string{}
+		rb.imports = map[string]string{}
+		rb.needSet = false
 		rb.decls, rb.inits, rb.nobj = nil, nil, 0
 		argExprs = nil
 		for _, in := range vc.inputs {
+			rb.curTerm = in.Term
 			argExprs = append(argExprs, rb.value(in.T, parseSexp(rb.vals[in.Term]), 0))
+			rb.curTerm = ""
 		}
-		if len(rb.pending) == 0 {
+		if len(rb.pending) == 0 && !rb.retry {
 			break
 		}
 	}
@@ -593,6 +699,10 @@ func (rb *replayBuilder) testSource(ct *Contract, ob *Obligation, argExprs []str
 			fmt.Fprintf(&body, "\t_ = %s\n", n)
 		}
 	}
+	if rb.needSet {
+		rb.imports["reflect"] = "reflect"
+		rb.imports["unsafe"] = "unsafe"
+	}
 	b.WriteString("package " + rb.pkg.Name() + "\n\nimport (\n\t\"fmt\"\n\t\"testing\"\n")
 	var ips []string
 	for p := range rb.imports {
@@ -608,6 +718,9 @@ func (rb *replayBuilder) testSource(ct *Contract, ob *Obligation, argExprs []str
 	b.WriteString(")\n\n// Generated by govc: replay of a solver counterexample for obligation\n// " + ob.Name + "\nfunc TestVerifReplay(t *testing.T) {\n")
 	b.WriteString(body.String())
 	b.WriteString("}\n")
+	if rb.needSet {
+		b.WriteString("\nfunc verifSet(ptr interface{}, field string, val interface{}) {\n\tv := reflect.ValueOf(ptr).Elem().FieldByName(field)\n\treflect.NewAt(v.Type(), unsafe.Pointer(v.UnsafeAddr())).Elem().Set(reflect.ValueOf(val))\n}\n")
+	}
 	return b.String()
 }
 
